@@ -378,20 +378,35 @@ def run_layers(ctx, spec):
     import itertools
     rng = ctx.rng
     for it in range(spec['n']):
-        geo, desc = geos.rectangular(rng, nx=rng.randint(1, 3), ny=rng.randint(1, 3), nz=rng.randint(1, 6), convention=rng.choice([0, 0, 2]))
-        if geo.num_layers > 2:
-            desc['surfaces'] = geos.set_surfaces(geo, rng, rng.choice(['inside', 'mixed', 'above', 'boundary']), frac=0.6)
-        lays = [l.name for l in geo.layerlist[1:]]
-        subsets = [list(s) for r in range(1, len(lays) + 1) for s in itertools.combinations(lays, r)]
-        sel = rng.choice(subsets)
+        if it % 4 == 3:
+            # a geometry as it comes from a file (its surface layer has whatever name, bottom and centre the file gives it)
+            name = geos.SHIPPED[(it // 4) % len(geos.SHIPPED)]
+            geo, desc = geos.load_shipped(name), {'kind': 'shipped', 'name': name}
+            lays = [l.name for l in geo.layerlist[1:]]
+            sel = sorted(rng.sample(lays, rng.randint(1, min(3, len(lays))))) if rng.random() < 0.7 else []
+            ctx.count('layer_refinements_of_shipped_geometries')
+        else:
+            geo, desc = geos.rectangular(rng, nx=rng.randint(1, 3), ny=rng.randint(1, 3), nz=rng.randint(1, 6), convention=rng.choice([0, 0, 2]))
+            if geo.num_layers > 2:
+                desc['surfaces'] = geos.set_surfaces(geo, rng, rng.choice(['inside', 'mixed', 'above', 'boundary']), frac=0.6)
+            lays = [l.name for l in geo.layerlist[1:]]
+            subsets = [list(s) for r in range(1, len(lays) + 1) for s in itertools.combinations(lays, r)]
+            sel = rng.choice(subsets)
         f = rng.randint(2, 4)
+        if geo.convention == 0:
+            # two-digit layer names: a request for more than 99 layers is answered with the naming error (property C17)
+            while len(lays) + (f - 1) * (len(sel) or len(lays)) > 99:
+                if f > 2:
+                    f -= 1
+                else:
+                    sel = (sel or lays)[:2]
         op = ['refine_layers', sel, f]
         case = {'geo': desc, 'ops': [op], 'seed': ctx.seed, 'shard': ctx.shard, 'iteration': it}
         old_layers = [(l.bottom, l.top) for l in geo.layerlist[1:]]
         ok = do_op(ctx, geo, op, case)
         if ok is not False:
             new_layers = [(l.bottom, l.top) for l in geo.layerlist[1:]]
-            if len(new_layers) != len(old_layers) + (f - 1) * len(sel):
+            if len(new_layers) != len(old_layers) + (f - 1) * (len(sel) or len(old_layers)):
                 ctx.violation('layers:count', '%d layers after refining %d of %d by %d' % (len(new_layers), len(sel), len(old_layers), f), case)
             for b, t in new_layers:
                 if not any(ob - 1e-9 <= b and t <= ot + 1e-9 for ob, ot in old_layers):
